@@ -563,4 +563,209 @@ Proof.
   destruct (U2 x Hx Hne) as [_ Hb]. unfold qnth in Hb. lra.
 Qed.
 
+Lemma ns_all : (T + 2 <= N)%Z ->
+  B < P /\ P <= Qabs (qnth conv T) /\
+  (forall k, (0 <= k < N)%Z -> (h <= Z.abs (k - T))%Z -> Qabs (qnth conv k) <= B) /\
+  (forall k, (0 <= k < N)%Z -> (Z.abs (k - T) <= h)%Z ->
+     Qabs (qnth conv k) + inject_Z (Z.abs (k - T)) * dl <= Qabs (qnth conv T)) /\
+  (forall k, (0 <= k < N)%Z -> k <> T -> Qabs (qnth conv k) < Qabs (qnth conv T)) /\
+  In T (find_local_peaks conv) /\
+  (forall x, In x (find_local_peaks conv) -> x <> T -> (h <= Z.abs (x - T))%Z /\ Qabs (qnth conv x) <= B) /\
+  (forall tau, B < tau -> tau <= Qabs (qnth conv T) -> keep_ge conv tau (find_local_peaks conv) = [T]) /\
+  (forall tau, B < tau ->
+     keep_ge conv tau (find_local_peaks conv) = [T] \/ keep_ge conv tau (find_local_peaks conv) = []).
+Proof.
+  intros Ht. destruct ns_floor as [F1 F2]. destruct (ns_peaks Ht) as [P1 P2].
+  split; [exact F1|]. split; [exact F2|]. split; [exact ns_outside|]. split; [exact ns_drop|].
+  split; [exact ns_max|]. split; [exact P1|]. split; [exact P2|].
+  split; [intros tau; apply ns_keep, Ht|intros tau; apply ns_keep_sub, Ht].
+Qed.
+
 End NoisyStep.
+
+(* the same without the orientation parameter: D = |b - a| *)
+Lemma noisy_step_level a b t n sg eps h scale :
+  noise_within eps (step_signal a b t n) sg -> 0 < scale ->
+  (1 <= h <= Z.of_nat t)%Z -> (Z.of_nat t + h <= Z.of_nat n)%Z -> (Z.of_nat t + 2 <= Z.of_nat n)%Z ->
+  4 * eps < Qabs (b - a) ->
+  let T := Z.of_nat t in
+  let N := Z.of_nat n in
+  let conv := haar_conv sg None h scale in
+  let B := noise_bound_u h eps scale in
+  let P := peak_floor_u h (Qabs (b - a)) eps scale in
+  let dl := drop_per_bin_u (Qabs (b - a)) eps scale in
+  B < P /\ P <= Qabs (qnth conv T) /\
+  (forall k, (0 <= k < N)%Z -> (h <= Z.abs (k - T))%Z -> Qabs (qnth conv k) <= B) /\
+  (forall k, (0 <= k < N)%Z -> (Z.abs (k - T) <= h)%Z ->
+     Qabs (qnth conv k) + inject_Z (Z.abs (k - T)) * dl <= Qabs (qnth conv T)) /\
+  (forall k, (0 <= k < N)%Z -> k <> T -> Qabs (qnth conv k) < Qabs (qnth conv T)) /\
+  In T (find_local_peaks conv) /\
+  (forall x, In x (find_local_peaks conv) -> x <> T -> (h <= Z.abs (x - T))%Z /\ Qabs (qnth conv x) <= B) /\
+  (forall tau, B < tau -> tau <= Qabs (qnth conv T) -> keep_ge conv tau (find_local_peaks conv) = [T]) /\
+  (forall tau, B < tau ->
+     keep_ge conv tau (find_local_peaks conv) = [T] \/ keep_ge conv tau (find_local_peaks conv) = []).
+Proof.
+  intros Hnz Hs Hh Hn Ht Hgap T N conv B P dl.
+  destruct (Qlt_le_dec a b) as [L|L].
+  - apply (ns_all a b t n sg eps h scale false (Qabs (b - a))); try assumption.
+    rewrite Qabs_pos by lra. unfold sgnQ. ring.
+  - apply (ns_all a b t n sg eps h scale true (Qabs (b - a))); try assumption.
+    rewrite Qabs_neg by lra. unfold sgnQ. ring.
+Qed.
+
+(* ---------- means of noisy segments ---------- *)
+
+Lemma range_mean_within d s e c eps :
+  (s < e)%Z -> (forall j, (s <= j < e)%Z -> Qabs (at_ d j - c) <= eps) ->
+  Qabs (range_mean d s e - c) <= eps.
+Proof.
+  intros Hse Hb. unfold range_mean.
+  destruct (wsum_bounds (fun j => at_ d j - c) s (Z.to_nat (e - s)) eps) as [A1 A2].
+  { intros j Hj. apply abs_le_iff, Hb. lia. }
+  rewrite wsum_minus in A1, A2.
+  rewrite (wsum_const (fun _ => c) s (Z.to_nat (e - s)) c) in A1, A2 by (intros; reflexivity).
+  rewrite Z2Nat.id in A1, A2 by lia.
+  assert (Hp : 0 < inject_Z (e - s)) by (apply inject_Z_pos; lia).
+  assert (E : wsum (at_ d) s (Z.to_nat (e - s)) / inject_Z (e - s) - c
+              == (wsum (at_ d) s (Z.to_nat (e - s)) - inject_Z (e - s) * c) / inject_Z (e - s)).
+  { field. lra. }
+  rewrite E. apply abs_le_iff. split.
+  - apply Qle_shift_div_l; [exact Hp|]. lra.
+  - apply Qle_shift_div_r; [exact Hp|]. lra.
+Qed.
+
+(* ---------- the level loop when every level keeps [t] or nothing ---------- *)
+
+Lemma fold_single_or_none T (addon : Z -> list Z) (wfun : Z -> Z) :
+  (0 <= T)%Z ->
+  forall ls bps,
+  (forall l, In l ls -> (0 <= wfun l)%Z /\ (addon l = [T] \/ addon l = [])) ->
+  (bps = [T] \/ bps = []) ->
+  ((bps = [T] \/ exists l, In l ls /\ addon l = [T]) ->
+   fold_left (fun bps l => unify_levels bps (addon l) (wfun l)) ls bps = [T]) /\
+  (bps = [] -> (forall l, In l ls -> addon l = []) ->
+   fold_left (fun bps l => unify_levels bps (addon l) (wfun l)) ls bps = []).
+Proof.
+  intros HT. induction ls as [|l ls IH]; intros bps Hls Hb.
+  - cbn [fold_left]. split.
+    + intros [E|[l [[] _]]]. exact E.
+    + intros E _. exact E.
+  - cbn [fold_left]. destruct (Hls l (or_introl eq_refl)) as [Hw Ha].
+    assert (Hls' : forall l', In l' ls -> (0 <= wfun l')%Z /\ (addon l' = [T] \/ addon l' = [])).
+    { intros l' Hl'. apply Hls. right. exact Hl'. }
+    assert (Hnext : (bps = [T] \/ addon l = [T] -> unify_levels bps (addon l) (wfun l) = [T]) /\
+                    (bps = [] -> addon l = [] -> unify_levels bps (addon l) (wfun l) = [])).
+    { split.
+      - intros Hc. destruct Hb as [->| ->], Ha as [Ea|Ea]; rewrite Ea.
+        + apply unify_same, Hw.
+        + reflexivity.
+        + apply unify_first, HT.
+        + destruct Hc as [C|C]; [discriminate|congruence].
+      - intros -> Ea. rewrite Ea. reflexivity. }
+    destruct Hnext as [N1 N2].
+    assert (Hb' : unify_levels bps (addon l) (wfun l) = [T] \/ unify_levels bps (addon l) (wfun l) = []).
+    { destruct Hb as [Eb|Eb]; [left; apply N1; left; exact Eb|].
+      destruct Ha as [Ea|Ea]; [left; apply N1; right; exact Ea|right; apply N2; assumption]. }
+    destruct (IH _ Hls' Hb') as [I1 I2]. split.
+    + intros [Eb|[l' [[<-|Hl'] Ea]]].
+      * apply I1. left. apply N1. left. exact Eb.
+      * apply I1. left. apply N1. right. exact Ea.
+      * apply I1. right. exists l'. split; assumption.
+    + intros Eb Hall. apply I2.
+      * apply N2; [exact Eb|apply Hall; left; reflexivity].
+      * intros l' Hl'. apply Hall. right. exact Hl'.
+Qed.
+
+Section NoisePipeline.
+Variable scale_u scale_w : Z -> Q.
+Variable pvals : Z -> list Q.
+Variable absorb : Z -> bool.
+
+(* the FDR threshold haarSeg computes at a level: FDRThres(convRes[peakLoc], q, sigma) *)
+Definition level_thres (sg : list Q) (wt : option (list Q)) (q : Q) (level : Z) : Q :=
+  let conv := conv_level scale_u scale_w sg wt (2 ^ level) in
+  fdr_thres (map (qnth conv) (find_local_peaks conv)) q (pvals level) (absorb level).
+
+Lemma level_addon_keep sg wt q level :
+  level_addon scale_u scale_w pvals absorb sg wt q level =
+  keep_ge (conv_level scale_u scale_w sg wt (2 ^ level)) (level_thres sg wt q level)
+          (find_local_peaks (conv_level scale_u scale_w sg wt (2 ^ level))).
+Proof. reflexivity. Qed.
+
+Hypothesis scale_u_pos : forall h, 0 < scale_u h.
+
+(* one level of haarSeg on a noisy step: the add-on peaks are [t] or nothing when the level's
+   threshold exceeds the noise bound, and [t] when it also does not exceed |conv t| *)
+Lemma noisy_step_addon a b t n sg eps q level :
+  noise_within eps (step_signal a b t n) sg -> (32 <= t)%nat -> (t + 32 <= n)%nat ->
+  4 * eps < Qabs (b - a) -> (1 <= level <= 5)%Z ->
+  noise_bound_u (2 ^ level) eps (scale_u (2 ^ level)) < level_thres sg None q level ->
+  (level_addon scale_u scale_w pvals absorb sg None q level = [Z.of_nat t] \/
+   level_addon scale_u scale_w pvals absorb sg None q level = []) /\
+  (level_thres sg None q level <= Qabs (qnth (conv_level scale_u scale_w sg None (2 ^ level)) (Z.of_nat t)) ->
+   level_addon scale_u scale_w pvals absorb sg None q level = [Z.of_nat t]).
+Proof.
+  intros Hnz Ht Hn Hgap Hl Hthr. pose proof (pow2_le32 level Hl) as P2.
+  destruct (noisy_step_level a b t n sg eps (2 ^ level) (scale_u (2 ^ level)) Hnz (scale_u_pos _)
+              ltac:(lia) ltac:(lia) ltac:(lia) Hgap) as [_ [_ [_ [_ [_ [_ [_ [K1 K2]]]]]]]].
+  rewrite level_addon_keep. split.
+  - apply K2. exact Hthr.
+  - intros Hle. apply K1; [exact Hthr|exact Hle].
+Qed.
+
+Lemma noisy_step_seg a b t n sg eps q :
+  noise_within eps (step_signal a b t n) sg -> (32 <= t)%nat -> (t + 32 <= n)%nat ->
+  4 * eps < Qabs (b - a) ->
+  (forall l, (1 <= l <= 5)%Z -> noise_bound_u (2 ^ l) eps (scale_u (2 ^ l)) < level_thres sg None q l) ->
+  (exists l, (1 <= l <= 5)%Z /\
+     level_thres sg None q l <= Qabs (qnth (conv_level scale_u scale_w sg None (2 ^ l)) (Z.of_nat t))) ->
+  let r := haar_seg scale_u scale_w pvals absorb sg None q in
+  let T := Z.of_nat t in
+  let N := Z.of_nat n in
+  hr_breaks r = [T] /\ hr_start r = [0; T]%Z /\ hr_end r = [T - 1; N - 1]%Z /\ hr_size r = [T; N - T]%Z /\
+  exists m1 m2, hr_mean r = [m1; m2] /\ Qabs (m1 - a) <= eps /\ Qabs (m2 - b) <= eps.
+Proof.
+  intros Hnz Ht Hn Hgap Hthr [l0 [Hl0 Hkeep]] r T N.
+  assert (Hstp : length (step_signal a b t n) = n) by (apply step_signal_length; lia).
+  assert (Hlen : length sg = n) by (destruct Hnz as [Hl _]; rewrite Hl; exact Hstp).
+  assert (Hb : haar_breakpoints_over scale_u scale_w pvals absorb haar_levels sg None q = [T]).
+  { unfold haar_breakpoints_over.
+    destruct (fold_single_or_none T (fun l => level_addon scale_u scale_w pvals absorb sg None q l)
+                (fun l => (2 ^ (l - 1))%Z) ltac:(unfold T; lia) haar_levels []) as [F1 _].
+    - intros l Hl. apply haar_levels_range in Hl. split; [apply Z.pow_nonneg; lia|].
+      apply (noisy_step_addon a b t n sg eps q l); try assumption. apply Hthr, Hl.
+    - right. reflexivity.
+    - apply F1. right. exists l0. split.
+      + rewrite haar_levels_eq. cbn [In]. lia.
+      + apply (noisy_step_addon a b t n sg eps q l0); try assumption. apply Hthr, Hl0. }
+  unfold r, haar_seg. rewrite Hb. unfold haar_result_of.
+  cbn [hr_breaks hr_start hr_end hr_size hr_mean app map combine fst snd].
+  unfold Zlength_nat. rewrite Hlen. fold N. rewrite Z.sub_0_r.
+  repeat (split; [reflexivity|]).
+  eexists. eexists. split; [reflexivity|].
+  assert (Hne : sg <> []) by (intros C; rewrite C in Hlen; cbn in Hlen; lia).
+  assert (Hbi : breaks_in (Zlength_nat sg) [T]).
+  { unfold Zlength_nat. rewrite Hlen. split; [repeat constructor|]. intros x [<-|[]]. unfold T. lia. }
+  assert (Hat : forall j, (0 <= j < N)%Z ->
+            Qabs (at_ sg j - (if (Z.to_nat j <? t)%nat then a else b)) <= eps).
+  { intros j Hj. destruct Hnz as [_ Hbd]. specialize (Hbd j). rewrite Hstp in Hbd. specialize (Hbd Hj).
+    unfold at_ in Hbd at 2. rewrite nth_step in Hbd by (unfold N in Hj; lia). exact Hbd. }
+  split.
+  - rewrite (segment_by_peaks_nth sg [T] None 0 T 0 Hne Hbi); [|left; reflexivity|unfold T; lia].
+    pose proof (seg_mean_spec sg None 0 T ltac:(unfold T; lia) ltac:(rewrite Hlen; unfold T; lia) I) as Sm.
+    cbn [is_segment_mean] in Sm. rewrite Sm.
+    apply range_mean_within; [unfold T; lia|]. intros j Hj.
+    pose proof (Hat j ltac:(unfold T, N in *; lia)) as A.
+    replace (Z.to_nat j <? t)%nat with true in A by (symmetry; apply Nat.ltb_lt; unfold T in Hj; lia).
+    exact A.
+  - rewrite (segment_by_peaks_nth sg [T] None T N T Hne Hbi);
+      [|unfold Zlength_nat; rewrite Hlen; right; left; reflexivity|unfold T, N; lia].
+    pose proof (seg_mean_spec sg None T N ltac:(unfold T, N; lia) ltac:(rewrite Hlen; unfold N; lia) I) as Sm.
+    cbn [is_segment_mean] in Sm. rewrite Sm.
+    apply range_mean_within; [unfold T, N; lia|]. intros j Hj.
+    pose proof (Hat j ltac:(unfold T, N in *; lia)) as A.
+    replace (Z.to_nat j <? t)%nat with false in A by (symmetry; apply Nat.ltb_ge; unfold T in Hj; lia).
+    exact A.
+Qed.
+
+End NoisePipeline.
